@@ -142,7 +142,7 @@ def run_task(task, tier, seed):
         statuses = {}
         witness = None
         for sv in solvers:
-            st, model, ms = solve(sv, defs, asserts, timeout if sv == solvers[0] else 60, seed)
+            st, model, ms = solve(sv, defs, asserts, timeout if sv == solvers[0] else 20, seed)
             res["smt_ms"] += ms
             statuses[sv] = (st, ms)
             if st == "sat" and witness is None:
